@@ -69,6 +69,10 @@ def gen(rng, tier):
         raise_at = rng.choice([None, None, None, 0, 1]) if shape in ("generator", "iter_close", "lazy_iter_close", "iterable_close_gen") else None
         status = rng.choice(["200 OK", "201 Created", "404 Not Found", "500 Internal Server Error", "299 Custom"])
         rh = [("X-W", "v%d" % i), ("Content-Type", "text/x-test")]
+        if rng.random() < 0.25:
+            # PEP 3333: header strings are bytes tunnelled through latin-1 - a non-ASCII character is one byte on the wire
+            rh.append(rng.choice([("Content-Disposition", 'attachment; filename="r\xe9sum\xe9.txt"'), ("X-Latin", "caf\xe9 \xfc\xff"),
+                                  ("Location", "/caf\xc3\xa9/")]))
         if rng.random() < 0.3:
             rh += [("Set-Cookie", "a=1"), ("Set-Cookie", "b=2")]
         be = ["asyncio", "trio"]
